@@ -118,25 +118,24 @@ func (s *State) reachObj(id int, seen map[int]bool) {
 	}
 }
 
-// poison marks the pooled object itself (not what it points to: a pooled
-// container's backing array legitimately stays referenced).
-func (s *State) poison(v Value) {
-	iv, ok := v.(Iface)
-	if !ok {
-		return
-	}
-	if p, ok := iv.V.(Ptr); ok && p.Obj != 0 {
-		s.heap.own(p.Obj).Poison = true
-	}
-}
+// poison marks the pooled object and every heap object reachable from it
+// (e.g. the backing array of a pooled buffer): after Put none of it may be
+// read by the code that gave it away.
+func (s *State) poison(v Value) { s.setPoison(v, true) }
 
-func (s *State) unpoison(v Value) {
-	iv, ok := v.(Iface)
-	if !ok {
-		return
-	}
-	if p, ok := iv.V.(Ptr); ok && p.Obj != 0 {
-		s.heap.own(p.Obj).Poison = false
+func (s *State) unpoison(v Value) { s.setPoison(v, false) }
+
+func (s *State) setPoison(v Value, on bool) {
+	seen := map[int]bool{}
+	s.reachableFrom(v, seen)
+	for id := range seen {
+		o := s.heap.get(id)
+		if o.Doc != nil || strings.HasPrefix(o.Tag, "global:") || o.Tag == "json" {
+			continue // document cells and globals are not part of the pooled buffer
+		}
+		if o.Poison != on {
+			s.heap.own(id).Poison = on
+		}
 	}
 }
 
